@@ -13,8 +13,9 @@ package main
 //           iterates a Go map: any max-bytes old file, the same-path one on ties), with the
 //           reused-bytes figure of the model.
 // The two known bsdiff defects (DESIGN section 7, #7 and #8) crash the optimizer; runs whose
-// mappings have a tiny file on either side are executed in a child process (re-exec of this
-// binary, sub-command C07child) so that a panic in a goroutine cannot take the harness down.
+// mappings have a tiny file on either side, and runs that bsdiff two or more files, are executed
+// in a child process (re-exec of this binary, sub-command C07child) so that a panic in a
+// goroutine (suffix sorter, scan worker) cannot take the harness down.
 
 import (
 	"bytes"
@@ -269,9 +270,30 @@ func c07CoqOps(ops []rdOp) string {
 	return lib.CoqList(s)
 }
 
-func (c *Ctx) c07Run(idx int, name string, old, nw *lib.Build, rel []string, o lib.OptParams, comp lib.Compression) error {
+// c07Apps says how the two patches of a case are applied on top of original/fresh and
+// optimized/fresh.
+type c07Apps struct {
+	inplaceOpt, inplaceOrig bool
+	// applications of the optimized patch with a save consumer: first one that is offered every
+	// checkpoint and takes none ("saving"), then one interrupted by the c07Plan of the given kind
+	interrupted []c07Interrupt
+	rng         *lib.Rng      // source of the interruption plans
+	deadline    time.Duration // per call of the optimizer / the patcher (default 180 s)
+}
+
+type c07Interrupt struct {
+	inplace  bool
+	kind     int
+	original bool // the original patch instead of the optimized one
+}
+
+func (c *Ctx) c07Run(idx int, name string, old, nw *lib.Build, rel []string, o lib.OptParams, comp lib.Compression, ap c07Apps) error {
 	base := filepath.Join(c.Tmp, fmt.Sprintf("c07-%d", idx))
 	defer removeAll(base)
+	deadline := ap.deadline
+	if deadline == 0 {
+		deadline = 180 * time.Second
+	}
 	oldDir, newDir := filepath.Join(base, "old"), filepath.Join(base, "new")
 	if err := old.WriteTo(oldDir); err != nil {
 		return err
@@ -332,6 +354,11 @@ func (c *Ctx) c07Run(idx int, name string, old, nw *lib.Build, rel []string, o l
 			}
 			mdesc = append(mdesc, fmt.Sprintf("%s(%d)<-%s(%d):%d", orig.Source.Files[m.Source].Path, nl, orig.Target.Files[m.Target].Path, ol, m.NumBytes))
 		}
+		// one differ context serves all the files of a run: what it keeps from one file (buffers,
+		// suffix array) meets the next, and its scan workers are goroutines
+		if len(ms) >= 2 {
+			risky = true
+		}
 	}
 	digest()
 
@@ -340,14 +367,14 @@ func (c *Ctx) c07Run(idx int, name string, old, nw *lib.Build, rel []string, o l
 	if cls == "ok" {
 		if risky {
 			var cms []rdMapping
-			cls, msg, opt, cms = c.c07OptimizeChild(base, dr.Patch, oldDir, newDir, o, 120*time.Second)
+			cls, msg, opt, cms = c.c07OptimizeChild(base, dr.Patch, oldDir, newDir, o, deadline)
 			obs["child"] = true
 			if cms != nil || cls == "ok" {
 				ms = cms
 				digest()
 			}
 		} else {
-			cls, msg = lib.WithDeadline(180*time.Second, func() error {
+			cls, msg = lib.WithDeadline(deadline, func() error {
 				var err error
 				opt, err = rdOptimizeWith(rc, oldDir, newDir)
 				return err
@@ -420,12 +447,10 @@ func (c *Ctx) c07Run(idx int, name string, old, nw *lib.Build, rel []string, o l
 			inplace bool
 		}
 		apps := []app{{"original/fresh", dr.Patch, false}, {"optimized/fresh", opt, false}}
-		// every patcher of a bsdiff series allocates (and clears) a 32 MiB read cache, which is
-		// most of the run time: the quick tier applies in place in every second case only
-		if c.Thorough() || idx%2 == 0 || (idx >= 1000 && idx < 2000) {
+		if ap.inplaceOpt {
 			apps = append(apps, app{"optimized/in-place", opt, true})
 		}
-		if c.Thorough() || idx%4 == 0 || (idx >= 1000 && idx < 2000) {
+		if ap.inplaceOrig {
 			apps = append(apps, app{"original/in-place", dr.Patch, true})
 		}
 		for _, a := range apps {
@@ -436,12 +461,12 @@ func (c *Ctx) c07Run(idx int, name string, old, nw *lib.Build, rel []string, o l
 				if err := old.WriteTo(outDir); err != nil {
 					return err
 				}
-				acls, amsg = lib.WithDeadline(180*time.Second, func() error {
+				acls, amsg = lib.WithDeadline(deadline, func() error {
 					return lib.ApplyInPlace(a.patch, outDir, filepath.Join(base, "stage"), nil)
 				})
 				removeAll(filepath.Join(base, "stage"))
 			} else {
-				acls, amsg = lib.WithDeadline(180*time.Second, func() error {
+				acls, amsg = lib.WithDeadline(deadline, func() error {
 					_, err := lib.ApplyFresh(a.patch, oldDir, outDir, nil, nil)
 					return err
 				})
@@ -457,6 +482,64 @@ func (c *Ctx) c07Run(idx int, name string, old, nw *lib.Build, rel []string, o l
 			}
 			if d := lib.DiffBuilds(got, nw); d != "" {
 				fail("%s apply differs from the new build: %s", a.name, d)
+			}
+		}
+		// ---- application with a save consumer, and with interruptions
+		for _, it := range ap.interrupted {
+			if oracle != "" {
+				break
+			}
+			aname, patch := "optimized", opt
+			if it.original {
+				aname, patch = "original", dr.Patch
+			}
+			if it.inplace {
+				aname += "/in-place"
+			} else {
+				aname += "/fresh"
+			}
+			check := func(what string) error {
+				got, err := lib.ReadBuild(filepath.Join(base, "out"))
+				if err != nil {
+					return err
+				}
+				if d := lib.DiffBuilds(got, nw); d != "" {
+					fail("%s apply differs from the new build: %s", what, d)
+				}
+				return nil
+			}
+			var lives [][]c07Offer
+			acls, amsg := lib.WithDeadline(deadline, func() error {
+				var err error
+				lives, err = c07ApplyLegs(patch, old, oldDir, base, it.inplace, nil)
+				return err
+			})
+			obs[aname+"/saving"] = acls
+			if acls != "ok" {
+				fail("applying the %s patch with a save consumer that never stops: %s: %s", aname, acls, amsg)
+				continue
+			}
+			if err := check(aname + " (with a save consumer that never stops)"); err != nil {
+				return err
+			}
+			plan, pdesc := c07Plan(ap.rng, lives[0], it.kind)
+			obs[aname+"/offers"] = len(lives[0])
+			if plan == nil || oracle != "" {
+				continue
+			}
+			in["interruptions:"+aname] = pdesc
+			acls, amsg = lib.WithDeadline(deadline, func() error {
+				var err error
+				lives, err = c07ApplyLegs(patch, old, oldDir, base, it.inplace, plan)
+				return err
+			})
+			obs[aname+"/interrupted"] = fmt.Sprintf("%s/%d lives", acls, len(lives))
+			if acls != "ok" {
+				fail("applying the %s patch with interruptions (%s; every life a new patcher and bowl resuming from the serialized checkpoint): %s: %s", aname, pdesc, acls, amsg)
+				continue
+			}
+			if err := check(fmt.Sprintf("%s (interrupted: %s)", aname, pdesc)); err != nil {
+				return err
 			}
 		}
 	}
@@ -525,6 +608,18 @@ func (c *Ctx) c07Run(idx int, name string, old, nw *lib.Build, rel []string, o l
 	if o.SizeLimit != 0 {
 		class += "/limit"
 	}
+	if len(ms) >= 2 {
+		class += "/multi"
+	}
+	for _, m := range ms {
+		if orig.Target.Files[m.Target].Size > c07CacheChunk*c07CacheEntries {
+			class += "/old>read-cache"
+			break
+		}
+	}
+	if len(ap.interrupted) > 0 {
+		class += "/interrupted"
+	}
 	group := ""
 	if coq != "" {
 		group = "rediff"
@@ -536,12 +631,32 @@ func (c *Ctx) c07Run(idx int, name string, old, nw *lib.Build, rel []string, o l
 	return nil
 }
 
+// cr07Extra: by how many chunks the big old file exceeds the read cache (just above it, mostly)
+func cr07Extra(r *lib.Rng) int { return []int{1, 2, 8, 33}[r.Intn(4)] }
+
 func mustJSON(v interface{}) []byte {
 	b, err := json.Marshal(v)
 	if err != nil {
 		panic(err)
 	}
 	return b
+}
+
+// c07DefaultApps: every patcher of a bsdiff series allocates (and clears) a 32 MiB read cache,
+// which is most of the run time, so the quick tier applies in place in every second (optimized)
+// / fourth (original) case only and with interruptions in every third.
+func (c *Ctx) c07DefaultApps(cr *lib.Rng, i int) c07Apps {
+	ap := c07Apps{inplaceOpt: c.Thorough() || i%2 == 0, inplaceOrig: c.Thorough() || i%4 == 0, rng: cr.Fork()}
+	switch {
+	case c.Thorough():
+		ap.interrupted = []c07Interrupt{{inplace: i%2 == 0, kind: i % 3}}
+		if i%8 == 0 {
+			ap.interrupted = append(ap.interrupted, c07Interrupt{inplace: i%16 == 0, kind: 1 + (i/8)%2, original: true})
+		}
+	case i%3 == 1:
+		ap.interrupted = []c07Interrupt{{inplace: i%2 == 0, kind: (i / 3) % 3}}
+	}
+	return ap
 }
 
 func runC07(c *Ctx) error {
@@ -556,7 +671,7 @@ func runC07(c *Ctx) error {
 			nw.Put(lib.Entry{Path: p, Kind: "file", Data: d})
 		}
 		o := lib.OptParams{Partitions: cc.partitions, ForceMapAll: cc.force, Comp: lib.Compressions[0]}
-		if err := c.c07Run(1000+idx, cc.name, old, nw, []string{cc.name}, o, lib.Compressions[0]); err != nil {
+		if err := c.c07Run(1000+idx, cc.name, old, nw, []string{cc.name}, o, lib.Compressions[0], c07Apps{inplaceOpt: true, inplaceOrig: true}); err != nil {
 			return err
 		}
 		idx++
@@ -600,7 +715,7 @@ func runC07(c *Ctx) error {
 			}
 		}
 		o := lib.OptParams{Partitions: cr.Range(0, 4), Concurrency: cr.Range(-1, 2), ForceMapAll: cr.Chance(1, 4), Comp: lib.Compressions[i%2]}
-		if err := c.c07Run(2000+i, "tie", old, nw, rel, o, lib.Compressions[0]); err != nil {
+		if err := c.c07Run(2000+i, "tie", old, nw, rel, o, lib.Compressions[0], c.c07DefaultApps(cr, i)); err != nil {
 			return err
 		}
 	}
@@ -626,7 +741,56 @@ func runC07(c *Ctx) error {
 			}
 		}
 		comp := []lib.Compression{lib.Compressions[0], lib.Compressions[1], lib.Compressions[4]}[i%3]
-		if err := c.c07Run(i, "genpair+tiny", old, nw, rel, o, comp); err != nil {
+		if err := c.c07Run(i, "genpair+tiny", old, nw, rel, o, comp, c.c07DefaultApps(cr, i)); err != nil {
+			return err
+		}
+	}
+	// several bsdiff series in one patch, applied uninterrupted and with interruptions: what one
+	// series leaves behind in the patcher (read cache, checkpoint, writer) meets the next one
+	nm := c.N(8, 40)
+	if c.Tier == "search" {
+		nm = 16
+	}
+	for i := 0; i < nm; i++ {
+		cr := r.Fork()
+		old, nw, rel := c07MultiPair(cr)
+		o := lib.OptParams{Partitions: cr.Range(0, 6), Concurrency: cr.Range(-1, 3), ForceMapAll: cr.Chance(1, 5), Comp: lib.Compressions[0]}
+		if i%2 == 1 { // checkpoints of a compressed patch exist at the codec's block boundaries only
+			o.Comp = lib.Compressions[(i/2+int(c.Seed))%len(lib.Compressions)]
+		}
+		ap := c07Apps{inplaceOpt: true, inplaceOrig: c.Thorough(), rng: cr.Fork(),
+			interrupted: []c07Interrupt{{inplace: false, kind: 0}, {inplace: true, kind: []int{0, 2}[i%2]}}}
+		if c.Thorough() {
+			ap.interrupted = append(ap.interrupted, c07Interrupt{inplace: i%2 == 0, kind: 1 + i%2}, c07Interrupt{inplace: i%2 == 1, kind: 1, original: true})
+		}
+		comp := []lib.Compression{lib.Compressions[0], lib.Compressions[1], lib.Compressions[4]}[i%3]
+		if err := c.c07Run(3000+i, "multi-bsdiff", old, nw, rel, o, comp, ap); err != nil {
+			return err
+		}
+	}
+	// an old file larger than the patcher's read cache (1024 chunks of 32 KiB): about 25 s and
+	// 500 MB per case (suffix sort of > 32 MiB), so one case in the quick tier
+	type big struct {
+		extra      int
+		moved      bool
+		partitions int
+	}
+	bigs := []big{{cr07Extra(r), false, 6}}
+	if c.Thorough() {
+		bigs = append(bigs, big{1, true, 4}, big{r.Range(64, 256), r.Bool(), r.Range(1, 8)})
+	}
+	if c.Tier == "search" {
+		bigs = nil
+	}
+	for i, bg := range bigs {
+		cr := r.Fork()
+		old, nw, rel := c07BigPair(cr, bg.extra, bg.moved)
+		o := lib.OptParams{Partitions: bg.partitions, Concurrency: cr.Range(-1, 3), Comp: lib.Compressions[0]}
+		ap := c07Apps{inplaceOpt: c.Thorough(), rng: cr.Fork(), deadline: 15 * time.Minute}
+		if c.Thorough() {
+			ap.interrupted = []c07Interrupt{{inplace: i%2 == 1, kind: 0}}
+		}
+		if err := c.c07Run(4000+i, "old-file-larger-than-read-cache", old, nw, rel, o, lib.Compressions[0], ap); err != nil {
 			return err
 		}
 	}
